@@ -340,3 +340,32 @@ def c08_pred(case, trace):
 
 def has_fault(case, model_trace):
     return "F" in [e[0] for sn in parse_trace(model_trace) if not sn.bad for e in sn.events]
+
+
+def bfs_scripts(configs, depth, maxn, flags):
+    """breadth-first enumeration of the MODEL's state space (ocaml/server/driver bfs): one script per transition of the graph explored to
+    `depth` operations, for each configuration (W, L, kinds)"""
+    out = []
+    info = []
+    for (W, L, K) in configs:
+        req = "W=%d;L=%d;K=%s;depth=%d;max=%d;flags=%s\n" % (W, L, K, depth, maxn, flags)
+        p = subprocess.run([DRIVER, "bfs"], input=req, stdout=subprocess.PIPE, stderr=subprocess.PIPE, text=True, timeout=900)
+        lines = [l for l in p.stdout.split("\n") if l]
+        out += lines
+        info.append("%s: %s" % (req.strip(), p.stderr.strip()))
+    return out, info
+
+
+def bfs_stream(ctx, pred, flags, nontrivial, quick_depth=6, thorough_depth=9):
+    if ctx.tier == "quick":
+        configs = [(1, 1, "T"), (2, 1, "T"), (2, 2, "U"), (1, 2, "TU")]
+        depth, maxn = quick_depth, 4000
+    else:
+        configs = [(w, l, k) for w in (1, 2, 3) for l in (1, 2) for k in ("T", "U")] + [(2, 1, "TU"), (2, 3, "T"), (1, 4, "T")]
+        depth, maxn = thorough_depth, 150000
+    cases, info = bfs_scripts(configs, depth, maxn, flags)
+    st = make_stream("bfs", cases, pred,
+                     "model-guided breadth-first enumeration, depth %d, flags '%s': one script per transition of the model's state graph; %s"
+                     % (depth, flags, "; ".join(info)), nontrivial)
+    st.exhaustive = all("%d scripts" % maxn not in i for i in info)
+    return st
